@@ -206,8 +206,9 @@ func (n *Node) start() {
 	gs.RegisterIncomingResponseHook(func(p peer.ID, r graphsync.ResponseData, a graphsync.IncomingResponseHookActions) {
 		n.mu.Lock()
 		held := false
+		// in progress = the requestor still protects a connection for the request (to whichever peer)
 		for _, k := range n.Host.cm.Protected() {
-			if k == string(p)+"|"+r.RequestID().Tag() {
+			if strings.HasSuffix(k, "|"+r.RequestID().Tag()) {
 				held = true
 			}
 		}
